@@ -31,11 +31,11 @@ def cev(v: Any) -> int | None:
     o = v.owner
     if isinstance(o, arith.ConstantOp):
         return o.value.value.data
-    if isinstance(o, (arith.AddiOp, arith.MuliOp)):
+    if isinstance(o, (arith.AddiOp, arith.MuliOp, arith.SubiOp)):
         a, b = cev(o.lhs), cev(o.rhs)
         if a is None or b is None:
             return None
-        return a + b if isinstance(o, arith.AddiOp) else a * b
+        return a + b if isinstance(o, arith.AddiOp) else a - b if isinstance(o, arith.SubiOp) else a * b
     return None
 
 
@@ -83,22 +83,30 @@ def unroll_case(lb: int, ub: int, st: int) -> tuple[str, str]:
     return text, "ok " + ints([v for v in vals if v is not None])
 
 
-def fold_case(op: str, lb: int, ub: int, st: int, c: int | None) -> tuple[str, str, Any]:
+FOLD_PY = {"add": lambda i, c: i + c, "radd": lambda i, c: c + i, "mul": lambda i, c: i * c, "rmul": lambda i, c: c * i,
+           "sub": lambda i, c: i - c, "rsub": lambda i, c: c - i}
+
+
+def fold_case(op: str, lb: int, ub: int, st: int, c: int | None, two_uses: bool = False) -> tuple[str, str, Any]:
+    """`op` ∈ add/mul/sub with the induction variable on the left, radd/rmul/rsub with it on the right"""
     from xdsl.dialects import func
 
     consts = {"lb": lb, "ub": ub, "st": st}
     if c is not None:
         consts["c"] = c
     cn = "%c" if c is not None else "%sym"
-    text = module_text(consts, f"  scf.for %i = %lb to %ub step %st {{\n    %x = arith.{op}i %i, {cn} : index\n"
-                               "    func.call @ext_index(%x) : (index) -> ()\n  }\n", sym=c is None)
+    a, b = ("%i", cn) if not op.startswith("r") else (cn, "%i")
+    extra = "    func.call @ext_index(%i) : (index) -> ()\n" if two_uses else ""
+    text = module_text(consts, f"  scf.for %i = %lb to %ub step %st {{\n    %x = arith.{op.lstrip('r')}i {a}, {b} : index\n"
+                               "    func.call @ext_index(%x) : (index) -> ()\n" + extra + "  }\n", sym=c is None)
     m, exc = apply(text, "scf-for-loop-range-folding")
     if m is None:
         return text, "raise " + str(exc), None
     f = for_ops(m)[0]
     call = next(o for o in f.body.walk() if isinstance(o, func.CallOp))
-    if call.arguments[0] is not f.body.block.args[0]:
-        return text, "no", None
+    if call.arguments[0] is not f.body.block.args[0] or two_uses:
+        same = call.arguments[0] is not f.body.block.args[0] and (cev(f.lb), cev(f.ub), cev(f.step)) == (lb, ub, st)
+        return text, "no" if same else "rewritten-unexpectedly", None
     b = (cev(f.lb), cev(f.ub), cev(f.step))
     if any(x is None for x in b):
         return text, "fold sym", None
@@ -144,6 +152,37 @@ def cf_case(lb: int, ub: int, st: int) -> tuple[str, str]:
         return text, r
     effs = r.split("effects [", 1)[1].rstrip("]").split()
     return text, "exit " + ints([int(e.split("i64:")[1].rstrip(")")) for e in effs])
+
+
+def perm_case(k: int, pattern: tuple[int, ...], trips: int, args: list[int]) -> tuple[str, str, str]:
+    """constant-trip loop carrying `k` values; slot j of the yield takes block argument `pattern[j]`
+    (or the freshly computed value when `pattern[j] == k`).  Returns (program, results of the unrolled
+    program on the real interpreter, results of a plain Python simulation of the loop)."""
+    xs = [f"%x{j}" for j in range(k)]
+    sig = ", ".join(f"%a{j}: index" for j in range(k))
+    tys = ", ".join(["index"] * k)
+    ys = ", ".join(xs[p] if p < k else "%n" for p in pattern)
+    text = ("builtin.module {\nfunc.func @main(" + sig + ") -> (" + tys + ") {\n"
+            f"  %lb = arith.constant 0 : index\n  %ub = arith.constant {trips} : index\n  %st = arith.constant 1 : index\n"
+            f"  %r:{k} = scf.for %i = %lb to %ub step %st iter_args(" + ", ".join(f"{x} = %a{j}" for j, x in enumerate(xs)) + f") -> ({tys}) {{\n"
+            "    %s = arith.addi %x0, %x1 : index\n    %n = arith.addi %s, %i : index\n"
+            f"    scf.yield {ys} : {tys}\n  }}\n"
+            "  func.return " + ", ".join(f"%r#{j}" for j in range(k)) + f" : {tys}\n}}\n}}\n")
+    vals = list(args)
+    for i in range(trips):
+        n = vals[0] + vals[1] + i
+        vals = [vals[p] if p < k else n for p in pattern]
+    want = "ok [" + ",".join(f"i64:{v}" for v in vals) + "] effects []"
+    m, exc = apply(text, "scf-for-loop-unroll")
+    if m is None:
+        return text, "raise " + str(exc), want
+    try:
+        m.verify()
+    except Exception as e:  # noqa: BLE001
+        return text, "invalid " + core.exc_name(e), want
+    if for_ops(m):
+        return text, "not-unrolled", want
+    return text, miniir.run_real(m, "main", list(args), cpu_budget_s=5.0), want
 
 
 def sym_case(ops: list[tuple[str, int, int]]) -> tuple[str, str]:
@@ -211,19 +250,43 @@ def run_models(ctx: core.Ctx) -> None:
             lines.append(f"trip {lb} {ub} {st}")
             expect.append(("trip", (lb, ub, st), text, str(len(ref_range(lb, ub, st))) if impl.startswith("ok") else impl))
 
+    # -- unrolling of loops whose yield permutes / forwards loop-carried values across slots ---------
+    pcases = [(2, pat, t) for pat in itertools.product(range(3), repeat=2) for t in (0, 1, 2, 3)]
+    p3 = [(3, pat, t) for pat in itertools.product(range(4), repeat=3) for t in (2, 3)]
+    pcases += p3 if ctx.tier != "quick" else [p3[i] for i in sorted(ctx.rng.sample(range(len(p3)), 30))]
+    for k, pat, t in pcases:
+        argv = [[1, 0, 5], [2, 5, -3], [7, -3, 4]][ctx.rng.randrange(3)][:k]
+        text, impl, want = perm_case(k, pat, t, argv)
+        ctx.ev(); ctx.count("model.unroll_perm")
+        if t >= 2 and any(p < j for j, p in enumerate(pat)):
+            ctx.nt(("perm", k, pat, t, tuple(argv)))
+        if impl != want:
+            ctx.fail(SITE_UNROLL, "unrolled loop-carried values differ from the loop (yield permutes / forwards block arguments)",
+                     {"program": text, "passes": ["scf-for-loop-unroll"], "arg_types": ["index"] * k, "args": [repr(a) for a in argv]},
+                     f"after unrolling, @main{tuple(argv)} gives {impl}; iterating the loop gives {want}", impl, want)
+
     # -- range folding -----------------------------------------------------------------------------
-    fcases = list(itertools.product(["add", "mul"], [-1, 0, 2], [-2, 0, 3, 5], [1, 2, 3], [-2, -1, 0, 1, 2, 3, None]))
-    for op, lb, ub, st, c in pick(ctx, fcases, 160):
-        text, impl, b = fold_case(op, lb, ub, st, c)
-        ctx.ev(); ctx.count("model.fold." + op)
-        lines.append(f"fold {op} {lb} {ub} {st} {'sym' if c is None else c}")
-        expect.append(("fold", (op, lb, ub, st, c), text, impl))
+    fcases = list(itertools.product(["add", "mul", "radd", "rmul", "sub", "rsub"], [-1, 0, 2], [-2, 0, 3, 5], [1, 2, 3],
+                                    [-2, -1, 0, 1, 2, 3, None], [False]))
+    fcases += list(itertools.product(["add", "mul", "sub", "rsub"], [0, 2], [3, 5], [1, 2], [1, 3, None], [True]))
+    for op, lb, ub, st, c, two in pick(ctx, fcases, 220):
+        text, impl, b = fold_case(op, lb, ub, st, c, two)
+        ctx.ev(); ctx.count("model.fold." + op + (".two_uses" if two else ""))
+        base = op.lstrip("r") if op in ("radd", "rmul") else op
+        if base in ("add", "mul") and not two:
+            lines.append(f"fold {base} {lb} {ub} {st} {'sym' if c is None else c}")
+            expect.append(("fold", (op, lb, ub, st, c), text, impl))
+        elif impl != "no":
+            # arith.subi users and induction variables with a second use are not folded by the pass
+            # (the model has no such step): anything else is a disagreement with the model
+            ctx.mismatch("correspondence:C16/loops", {"line": f"fold {op} {lb} {ub} {st} {c} two_uses={two}", "program": text}, impl, "no",
+                         "the pass rewrote a loop whose induction variable is used by arith.subi / used twice; the model never folds these")
         if b is not None:
             ctx.nt(("fold", op, lb, ub, st, c))
-            src = [(i + c) if op == "add" else (i * c) for i in ref_range(lb, ub, st)]
+            src = [FOLD_PY[op](i, c) for i in ref_range(lb, ub, st)]
             tgt = ref_range(*b) if b[2] > 0 else None
             if tgt != src:
-                ctx.fail(SITE_FOLD, "muli by a factor that is not known to be positive folded into the loop range" if op == "mul"
+                ctx.fail(SITE_FOLD, "muli by a factor that is not known to be positive folded into the loop range" if base == "mul"
                          else "folded bounds enumerate different values",
                          {"program": text, "passes": ["scf-for-loop-range-folding"]},
                          f"body saw {src} before; folded loop {b} enumerates {tgt}", impl, src)
